@@ -500,7 +500,7 @@ impl Check for SmartAccount {
             let got: Option<bool> = match s {
                 Step::Advance { n } => {
                     w.advance(*n);
-                    st.ledgers += *n as u64;
+                    st.ledgers += *n as u64; st.hit("clock.advance"); if *n > 100_000 { st.hit("clock.jump"); }
                     None
                 }
                 Step::Script { policy, rule, can, trap } => {
